@@ -44,7 +44,8 @@ import solvercorr as sc
 THEOREMS = ["C12_history_independent", "C12_history_independent_reachable", "C12_bookkeeping",
             "C12_precision_is_storage_only"]
 TRUSTED = [
-    "Model/Runtime.v is hand-written (state machine over config.NUM_THREADS, numba thread count, FFTManager singleton, pyfftw thread count, parallelize's _compiled); tied to the source on every run by exact differential execution of states and state-reading calls over random histories, and by an AST census of every read/write of process-global state in solver.py, utils.parallelize and fft_manager.py",
+    "Model/Runtime.v is hand-written (state machine over config.NUM_THREADS, numba thread count, FFTManager singleton, pyfftw thread count, parallelize's _compiled); tied to the source on every run (A) by exact differential execution of states and state-reading calls over random histories and by an AST census of every read/write of process-global state in solver.py, utils.parallelize and fft_manager.py, and (B) by harness/py2coq_runtime.py + coq/Bridge/RuntimeBridge.v: the state handling is re-translated from the current source into the description language of Model/RuntimeDesc.v and its interpretation is re-proved equal to Runtime.step / Runtime.run for all worlds, ops and histories",
+    "harness/py2coq_runtime.py (fail-closed `ast` translator: name resolution through the import tables and Python's scoping rule, which statements are numerical and dropped, whitelist of pure / extern callees) and the interpreter of Model/RuntimeDesc.v (Python's call binding, truthiness, and/or operand semantics, dict with the keys False/True, `global`) are trusted as the reading of the source",
     "harness/c12_worker.py observes the bookkeeping through module attributes, ivp_solver.__closure__ and wrappers around FFTManager.__init__/fft2/ifft2 and solver.ivp_solver installed from the harness process (no source hooks)",
     "numba code generation, numba/FFTW thread schedules and FFTW planning are NOT modelled: they enter the theorems as the oracle hypotheses kernel par n = kernel false 1 and fft t = fft 1",
 ]
@@ -53,6 +54,7 @@ ASSUMPTIONS = [
     "oracle hypothesis (needed only from unreachable states; from reachable states the model proves every transform runs on a one-thread manager): a pyfftw transform does not depend on its thread count",
     "FFTW planner / wisdom effects across processes are outside the model; the property grants them rounding (1e-12), which is what is checked for wisdom-loaded processes",
     "cache=None (the disk cache is C15's subject); argument errors are raised before any global state is touched; config.NUM_THREADS <= NUMBA_NUM_THREADS (numba raises otherwise)",
+    "tie (B): pyfftw's numpy-interface transform without `threads=` runs with pyfftw.config.NUM_THREADS; numba.set_num_threads(n) sets the count get_num_threads() / a dispatcher call sees; calls into numpy, pathlib, logging, pickle, atexit, pyfftw.interfaces.cache and methods of local values do not touch the tracked state; implicit exceptions (np.pad with a negative width, z[levels]) are not visible in the AST: their position is covered by the history correspondence",
     "C12_precision_is_storage_only is about Model/Solver.v (tied to the source by the C04/C10 correspondences): a_single is read only by rho; IEEE rounding itself is exercised (single vs double <= 1e-5 max), not proved",
 ]
 
@@ -538,8 +540,30 @@ def hist_replay(job, cases):
 # the check
 
 
+class _Shim:
+    """collects what py2coq_runtime.run reports while it runs in a worker thread next to the history subprocesses; replayed
+    into the real context afterwards so that the order of obligations does not depend on timing"""
+
+    def __init__(self, ctx):
+        self.build = ctx.build
+        self.coqc = ctx.coqc
+        self.write = ctx.write
+        self.cov = {}
+        self.obls = []
+
+    def obligation(self, name, ok, detail=""):
+        self.obls.append((name, ok, detail))
+
+
 def check(ctx):
     core.check_properties_file(ctx, "Properties/C12.v", THEOREMS, core.AX_NONE)
+
+    # tie (B): translate the state handling from the current source (fail closed -> gen:GenRuntime.v) and re-prove
+    # interpreted description = Model/Runtime.v (coq/Bridge/RuntimeBridge.v).  Runs beside the history correspondence.
+    import py2coq_runtime
+    shim = _Shim(ctx)
+    bridge_pool = ThreadPoolExecutor(max_workers=1)
+    bridge_job = bridge_pool.submit(py2coq_runtime.run, shim)
 
     # (0) census of global-state accesses in the source
     got = census(core.SRC)
@@ -608,6 +632,17 @@ def check(ctx):
     recs = run_jobs(base, jobs + [w[0] for w in wis], cases)
     recs.update(run_jobs(base, [w[1] for w in wis], cases))
     alljobs = {j["name"]: j for j in jobs + [w for pair in wis for w in pair]}
+
+    # tie (B) results (reported in front of the correspondence findings)
+    try:
+        bridge_job.result()
+    except Exception as e:  # fail closed
+        shim.obls.append(("bridge:RuntimeBridge", False, "bridge run crashed: %s: %s" % (type(e).__name__, e)))
+    bridge_pool.shutdown()
+    for name, ok_, detail in shim.obls:
+        ctx.obligation(name, ok_, detail)
+    ctx.cov.update(shim.cov)
+
 
     for nm, r in recs.items():
         if "crash" in r:
